@@ -176,6 +176,18 @@ def execute(mod, scn, keep_log=False):
     except Violation as v:
         viol = v.as_dict()
         log.add('VIOLATION', v.cls, v.sig, v.step)
+    except Exception as e:
+        # an exception raised from inside py4hw while it runs a legal workload is a failure of the
+        # system under test, not of the harness: report it as a violation (class sut-exception)
+        tb = traceback.extract_tb(e.__traceback__)
+        inner = tb[-1] if tb else None
+        if inner is None or '/py4hw/' not in inner.filename or not getattr(mod, 'SUT_EXCEPTIONS_ARE_VIOLATIONS', True):
+            raise
+        where = '%s:%s' % (os.path.basename(inner.filename), inner.name)
+        v = Violation('sut-exception', 'exception:%s:%s' % (type(e).__name__, where), log.n,
+                      '%s: %s (at %s line %d)' % (type(e).__name__, e, inner.filename, inner.lineno))
+        viol = v.as_dict()
+        log.add('VIOLATION', v.cls, v.sig)
     finally:
         seams.reset_globals(0)
     return viol, st, log.digest(), log
